@@ -3,6 +3,6 @@
 # usage: tools/soak.sh <seed> [workers]   (run through `vp run` from a snapshot; evidence of these runs is not committed)
 SEED=${1:-11}; W=${2:-8}
 declare -A N=( [C06]=800 [C07]=300 [C08]=1000 [C09]=800 [C10]=600 [C11]=5000 [C13]=500 [C18]=800 [C19]=1200 [C20]=6000 )
-for p in C20 C11 C08 C09 C19 C10 C18 C06 C13 C07; do
+for p in ${SOAK_ORDER:-C20 C11 C08 C09 C19 C10 C18 C06 C13 C07}; do
   JXSIM_WORKERS=$W JXSIM_NO_SHRINK=1 JXSIM_OUT=$PWD/.work/soak-$SEED /venv/bin/python run_check.py $p --tier thorough --runs ${N[$p]} --seed $SEED 2>&1 | grep -E "^\[C|VIOLATION|HARNESS|first|KNOWN" | cut -c1-400
 done
